@@ -35,10 +35,12 @@ TRUSTED = [
 ]
 
 
-def _second_gr(ctx, o1, tr2):
-    """a second gr object: same attributes, transformed trajectory"""
+def _second_gr(ctx, o1, tr2, g=None):
+    """a second gr object: same attributes, transformed trajectory (and mask)"""
     attrs = dict(o1.content)
     attrs["snapshots"] = tr2.snapshots()
+    if g is not None:
+        attrs["ppp"] = g.mask(attrs["ppp"])
     return ctx.obj(C03.MOD, "gr", attrs)
 
 
@@ -97,7 +99,7 @@ class GrTranslation(Unit):
         d = int(case[2])
         o, inp = C03._setup_self(ctx, d, self.K, None)
         geo = self.geo(inp)
-        tr2 = inp["tr"].view(pos_map=lambda t, s, i, c, base: self.g.pos(geo, s, i, c, True))
+        tr2 = inp["tr"].view(pos_map=lambda t, s, i, c, base: self.g.pos(geo, s, i, c, True), cell_map=lambda t, s, a, b, base: self.g.cell(geo, s, a, b))
         inp.update(o=o, tr2=tr2, k=ctx.int("k"))
         return [o], {}, inp
 
@@ -109,7 +111,7 @@ class GrTranslation(Unit):
         res1 = out.value
         token = self.g.begin(ctx, self, inp)
         try:
-            o2 = _second_gr(ctx, inp["o"], inp["tr2"])
+            o2 = _second_gr(ctx, inp["o"], inp["tr2"], self.g)
             res2 = _run_method(ctx, o2, C03.METHODS[self.K])
         finally:
             self.g.end(ctx, self, inp, token)
@@ -201,6 +203,13 @@ def _replay_gr_symmetry(K, d, seed, kind):
                 pos2 = [p + rng.integers(-2, 3, size=(N, d)) @ H for p in pos]
                 b = getattr(G.gr(build(pos2, types), ppp=ppp, rdelta=rdelta), C03.METHODS[K])()
                 pairs = [(c, c) for c in a.columns]
+            elif kind == "axis-permutation":
+                ax = [1, 0] if d == 2 else [1, 2, 0]
+                Hs, Ls = H.copy(), L.copy()
+                H, L = H[np.ix_(ax, ax)], L[ax]
+                b = getattr(G.gr(build([p[:, ax] for p in pos], types), ppp=ppp, rdelta=rdelta), C03.METHODS[K])()
+                H, L = Hs, Ls
+                pairs = [(c, c) for c in a.columns]
             else:
                 b = getattr(G.gr(build(pos, 3 - types), ppp=ppp, rdelta=rdelta), C03.METHODS[K])()
                 pairs = [("gr", "gr"), ("gr11", "gr22"), ("gr22", "gr11"), ("gr12", "gr12")]
@@ -243,7 +252,7 @@ class WriterTranslation(Unit):
         unit = {"cutoffneighbors": C05.CutoffNeighbors, "Nnearests": C05.NNearests}[self.which]()
         args, kwargs, inp = unit.setup(ctx, case)
         geo = self.geo(inp)
-        tr2 = inp["tr"].view(pos_map=lambda t, s, i, c, base: self.g.pos(geo, s, i, c, True))
+        tr2 = inp["tr"].view(pos_map=lambda t, s, i, c, base: self.g.pos(geo, s, i, c, True), cell_map=lambda t, s, a, b, base: self.g.cell(geo, s, a, b))
         inp.update(args=args, tr2=tr2)
         return args, kwargs, inp
 
@@ -260,7 +269,7 @@ class WriterTranslation(Unit):
         # second run on the translated trajectory, writing to another file
         m = load_module(C05.CN_MOD)
         fv = FuncVal(m, m.defs[self.which])
-        args2 = [inp["tr2"].snapshots()] + list(inp["args"][1:3]) + ["nb2.dat"]
+        args2 = [inp["tr2"].snapshots(), inp["args"][1], self.g.mask(inp["args"][2]), "nb2.dat"]
         interp = ctx.interp
         token = self.g.begin(ctx, self, inp)
         interp.depth += 1
@@ -375,7 +384,8 @@ def extra_checks(tier, seed, repo):
     from pyvc.vc import ObResult
     obs = []
     with use_state(State()):
-        for item in lemmas():
+        import contracts.C07_units as U
+        for item in lemmas() + U.axis_lemmas():
             name, goal = item[0], item[1]
             opts = item[2] if len(item) > 2 else {}
             ob = ObResult(f"C07:{name}")
@@ -464,6 +474,7 @@ def _quick():
 
 
 def _relational_units():
+    import contracts.C04 as C04
     import contracts.C06 as C06
     import contracts.C09 as C09
     import contracts.C10 as C10
@@ -486,6 +497,18 @@ def _relational_units():
         U.CondGr(C13.CondGr(), T, cases=["d=2/float", "d=3/bool", "d=3/vector"] if q else [c for c in C13.CondGr().cases() if "badtype" not in c]),
     ]
     L = U.LATTICE
+    for g in (T, L):
+        units += [U.Sq(C04.Method(1), g, cases=["d=2/nofile/species=1", "d=3/nofile/species=1"]), U.Sq(C04.Method(2), g, cases=["d=2/nofile", "d=3/nofile"])]
+        if not q:
+            units += [U.Sq(C04.Method(3), g, cases=["d=2/nofile", "d=3/nofile"])]
+    X = U.AXES
+    units += [
+        GrTranslation(1, X), GrTranslation(2, X), WriterTranslation("cutoffneighbors", X), WriterTranslation("Nnearests", X),
+        U.PairEntropy(C17.ParticleS2(), X, cases=["d=2/s2-only", "d=3/savegr"] if q else None),
+        U.DivCurl(C15.DivergenceCurl(), X),
+        U.Relaxation(C06.DynRelaxation(), X, cases=["d=2/slow/xu/nocage/all", "d=3/slow/xu/cage/condition"] if q else [c for c in C06.DynRelaxation().cases() if "/xu/" in c]),
+        U.CondGr(C13.CondGr(), X, cases=["d=2/float", "d=3/bool", "d=3/vector"] if q else [c for c in C13.CondGr().cases() if "badtype" not in c and "m=3" not in c]),
+    ]
     units += [
         GrTranslation(1, L), GrTranslation(2, L), WriterTranslation("cutoffneighbors", L), WriterTranslation("Nnearests", L),
         U.Boo2d(C10.LthOrder(), L, cases=["unweighted/nofile", "weighted/nofile"]),
@@ -493,7 +516,7 @@ def _relational_units():
         U.Tetra(C17.Tetrahedral(), L),
         U.PairEntropy(C17.ParticleS2(), L, cases=["d=2/savegr", "d=3/s2-only"] if q else None),
         U.DivCurl(C15.DivergenceCurl(), L),
-        U.Hessian(C11.Diagonalize(), L, cases=["d=2/K=2", "d=3/K=1"]),
+        U.Hessian(C11.Diagonalize(), L, cases=["d=2/K=2"] if q else ["d=2/K=2", "d=3/K=1"]),
         U.Relaxation(C06.DynRelaxation(), L, cases=["d=2/slow/x-only/nocage/all", "d=3/slow/xu/cage/condition", "d=3/fast/x-only/cage/condition"] if q else None),
         U.CondGr(C13.CondGr(), L, cases=["d=2/float", "d=3/bool", "d=3/vector"] if q else [c for c in C13.CondGr().cases() if "badtype" not in c]),
     ]
